@@ -60,6 +60,11 @@ def _run_one(job):
 
 def jobs_for(prop, both, repo):
     jobs = []
+    for m in CONTRACT_MODULES:      # import everything first: contracts.laws extends props of other modules
+        try:
+            importlib.import_module(m)
+        except ModuleNotFoundError:
+            pass
     for m in CONTRACT_MODULES:
         try:
             mod = importlib.import_module(m)
